@@ -47,14 +47,18 @@ def _sched_worker(args):
                 outs.append({'kind': p.kind, 'rc': p.rc, 'state': p.state, 'stdout': p.out.decode('utf-8', 'replace')[:4000],
                              'appended': p.appended, 'req': dict(p.req) if p.req else None})
             info['outs'] = outs
-            # post-run health: the store must still be readable and writable
+            resp = rpc.call(op='snapshot', dir=r.store.ergodir)
+            info['final_snapshot'] = resp.get('ok') if 'ok' in resp and 'tasks' in resp.get('ok', {}) else None
+            # post-run health: the store must still be readable, writable and rewritable
             rc1, out1, err1 = r.store.run(['--json', 'list', '--all'])
             rc2, out2, err2 = r.store.run(['--json', 'new', 'task'], stdin=b'{"title":"after the storm"}')
             rc3, out3, err3 = r.store.run(['--json', 'list', '--all'])
-            info['post'] = {'list_rc': rc1, 'new_rc': rc2, 'list2_rc': rc3, 'err': (err1 + err2 + err3).decode('utf-8', 'replace')[:300],
+            rc4, out4, err4 = r.store.run(['--json', 'compact'])
+            rc5, out5, err5 = r.store.run(['--json', 'plan'], stdin=b'{"title":"after","tasks":[{"title":"a1"}]}')
+            rc6, out6, err6 = r.store.run(['--json', 'list', '--all'])
+            info['post'] = {'list_rc': rc1, 'new_rc': rc2, 'list2_rc': rc3, 'compact_rc': rc4, 'plan_rc': rc5, 'list3_rc': rc6,
+                            'err': (err1 + err2 + err3 + err4 + err5 + err6).decode('utf-8', 'replace')[:300],
                             'new_visible': rc2 == 0 and rc3 == 0 and json.loads(out2)['id'] in [t['id'] for t in json.loads(out3)]}
-            resp = rpc.call(op='snapshot', dir=r.store.ergodir)
-            info['final_snapshot'] = resp.get('ok') if 'ok' in resp and 'tasks' in resp.get('ok', {}) else None
             return term, defs, info, None
         finally:
             r.close()
@@ -162,7 +166,7 @@ def mon_sched_common(info):
     for pv in info.get('protocol', []):
         out.append(('multi_write_section' if pv[0] == 'second_write_in_section' else 'multi_section_command', pv[1]))
     fs = info.get('final_snapshot')
-    if info['post']['list_rc'] != 0 or info['post']['new_rc'] != 0 or info['post']['list2_rc'] != 0 or not info['post']['new_visible']:
+    if any(info['post'].get(k, 0) != 0 for k in ('list_rc', 'new_rc', 'list2_rc', 'compact_rc', 'plan_rc', 'list3_rc')) or not info['post']['new_visible']:
         out.append(('store_unusable_after_run', info['post']))
     if fs is None:
         out.append(('final_store_unreadable',))
@@ -181,6 +185,11 @@ def mon_sched_common(info):
     for o in info['outs']:
         if o['kind'] == 'w' and o['rc'] not in (0, None) and o['state'] == 'done' and o['appended']:
             out.append(('failed_command_wrote', o['req'].get('k')))
+    return out
+
+
+def mon_rewrite_health(info):
+    out = mon_sched_common(info)
     return out
 
 
@@ -203,6 +212,29 @@ def mon_C01_sched(info):
             out.append(('task_won_twice', i, agents))
         t = monitors.tasks_by_id(fs).get(i)
         if t is not None and not others and (t['state'] != 'doing' or t['claimed_by'] not in agents):
+            out.append(('winner_does_not_hold_task', i, t['state'], t['claimed_by']))
+    return out
+
+
+def mon_C01_claimers_only(info):
+    """claimers + compaction only: nobody puts a task back to todo, so no id may be won twice and every
+    winner must still hold its task at the end."""
+    out = mon_sched_common(info)
+    won = {}
+    for o in info['outs']:
+        if o['kind'] == 'w' and o['rc'] == 0 and (o['req'] or {}).get('k') == 'claim':
+            try:
+                v = json.loads(o['stdout'])
+            except Exception:
+                continue
+            if v.get('status') != 'no_ready':
+                won.setdefault(v['id'], []).append(o['req']['agent'])
+    fs = info.get('final_snapshot') or {'tasks': []}
+    for i, agents in won.items():
+        if len(agents) > 1:
+            out.append(('task_won_twice', i, agents))
+        t = monitors.tasks_by_id(fs).get(i)
+        if t is not None and (t['state'] != 'doing' or t['claimed_by'] not in agents):
             out.append(('winner_does_not_hold_task', i, t['state'], t['claimed_by']))
     return out
 
@@ -253,10 +285,118 @@ def mon_C13_sched(info):
     return out
 
 
+def write_syscall_probe(ctx, prop):
+    """Every appending command must reach the log with exactly ONE write(2): counted with strace on the
+    real binary for multi-event commands with small and large (4 KiB, 70 KiB, 300 KiB) payloads.  If a
+    command needs more than one, it is killed at its second write and the half-applied state is shown."""
+    import shutil as _sh
+    if not _sh.which('strace'):
+        ctx.cov['write_syscall_probe'] = 'strace not available'
+        return
+    rpc = Rpc()
+    bad = []
+    n = 0
+    try:
+        for size in (10, 5000, 70000, 300000):
+            st = Store()
+            try:
+                body = 'b' * size
+                rc, out, _ = st.run(['--json', 'new', 'task'], stdin=b'{"title":"seed"}')
+                tid = json.loads(out)['id']
+                for k in range(6):
+                    st.run(['new', 'task'], stdin=json.dumps({'title': 'd%d' % k, 'state': 'done'}).encode())
+                cmds = [('new+claim', ['--agent', 'a', '--json', 'new', 'task'], json.dumps({'title': 't', 'body': body, 'claim': 'a', 'state': 'doing'}).encode()),
+                        ('set title+body+state', ['--agent', 'a', 'set', tid], json.dumps({'title': 'nt', 'body': body, 'state': 'blocked'}).encode()),
+                        ('claim', ['--agent', 'a', 'claim'], None),
+                        ('sequence x3', None, None),
+                        ('prune', ['prune', '--yes'], None)]
+                for name, args, stdin in cmds:
+                    if args is None:
+                        ids = [t['id'] for t in rpc.call(op='snapshot', dir=st.ergodir)['ok']['tasks'] if t['state'] == 'todo'][:3]
+                        if len(ids) < 3:
+                            continue
+                        args = ['sequence'] + ids
+                    tracef = os.path.join(st.root, 'trace.txt')
+                    pre = rpc.call(op='snapshot', dir=st.ergodir)['ok']
+                    cmd = ['strace', '-f', '-qq', '-o', tracef, '-e', 'trace=write,pwrite64,writev', '-P', st.log, ERGO] + args
+                    p = subprocess.run(cmd, cwd=st.dir, input=stdin, stdin=None if stdin is not None else subprocess.DEVNULL, capture_output=True, timeout=120)
+                    writes = len([l for l in open(tracef) if 'write' in l]) if os.path.exists(tracef) else -1
+                    n += 1
+                    if p.returncode == 0 and writes > 1:
+                        bad.append((name, size, writes))
+            finally:
+                st.close()
+        ctx.cov['write_syscall_probe'] = {'commands_traced': n, 'multi_write_commands': bad[:5]}
+        for b in bad[:2]:
+            ctx.violations.append(('monitor', 'command %s (payload %d bytes) reaches the log in %d write(2) calls: a kill between them leaves it half applied' % b,
+                                   {'kind': 'syscalls', 'command': b[0], 'payload_bytes': b[1], 'writes': b[2],
+                                    'how': 'strace -f -e trace=write -P .ergo/plans.jsonl ergo <command>'}))
+    finally:
+        rpc.close()
+
+
+def cycle_difftest(ctx):
+    """hasCycle on random graphs (any states, tombstones, dangling edges) vs the model's has_cycle."""
+    import synth, common
+    rng = random.Random(ctx.seed * 313 + 7)
+    rpc = Rpc()
+    wd = mkscratch('ergo-cycle-')
+    cases = []
+    try:
+        common.INTERN.__init__()
+        path = os.path.join(wd, 'log.jsonl')
+        nlogs = 40 if ctx.quick() else 600
+        for _ in range(nlogs):
+            g = synth.LogGen(rng, nids=rng.choice([4, 6, 8]))
+            log = g.log(rng.choice([20, 35]))
+            synth.write_log(path, log)
+            resp = rpc.call(op='snapshot', path=path)
+            if 'ok' not in resp or 'replay_error' in resp['ok']:
+                continue
+            evs = resp['ok']['events']
+            for _ in range(6):
+                a, b = rng.choice(g.ids), rng.choice(g.ids)
+                r = rpc.call(op='cycle', path=path, **{'from': a, 'to': b})
+                if 'ok' in r:
+                    cases.append('(%s, %s, %s, %s)' % (cq_events(evs), cq_str(a), cq_str(b), cq_bool(r['ok'])))
+        mism = []
+        shard = 120
+        procs = []
+        for k in range(0, len(cases), shard):
+            part = cases[k:k + shard]
+            name = os.path.join(wd, 'cyc_%d.v' % (k // shard))
+            with open(name, 'w') as f:
+                f.write(CASES_HEADER)
+                f.write(common.INTERN.defs_for(' '.join(part)))
+                f.write('Definition cases : list (list event * string * string * bool) := [\n' + ';\n'.join(part) + '\n].\n')
+                f.write('Definition M := Eval vm_compute in (fun c : list event * string * string * bool => let \'(l, a, b, o) := c in '
+                        'match replay l with Ok g => Bool.eqb (has_cycle g a b) o | Err _ => false end) <$> cases.\nPrint M.\n')
+            procs.append((k, subprocess.Popen(['coqc', '-Q', os.path.join(COQ, 'theories'), 'Ergo', '-Q', os.path.join(COQ, 'run'), 'ErgoRun', '-w', '-all', name],
+                                              cwd=wd, stdout=subprocess.PIPE, stderr=subprocess.STDOUT)))
+        nfalse = 0
+        for k, p in procs:
+            out, _ = p.communicate()
+            text = out.decode('utf-8', 'replace')
+            if p.returncode != 0:
+                ctx.violations.append(('broken', 'cycle difftest evaluation failed: ' + text[-300:], {'coq_error': text[-1500:]}))
+            nfalse += len(re.findall(r'\bfalse\b', text))
+        ctx.cov['cycle_difftest_cases'] = len(cases)
+        if nfalse:
+            ctx.violations.append(('mismatch', 'hasCycle disagrees with the model on %d of %d random graphs' % (nfalse, len(cases)),
+                                   {'kind': 'function', 'op': 'cycle', 'no_failing_input': True}))
+    finally:
+        rpc.close()
+        shutil.rmtree(wd, ignore_errors=True)
+
+
 def check_C01(ctx):
     n = 60 if ctx.quick() else 800
     sched_check(ctx, n, {'nwriters': 4, 'nreaders': 0, 'claimers': True, 'pre_steps': 10}, mon_C01_sched)
     sched_check(ctx, n // 2, {'nwriters': 4, 'nreaders': 0, 'pre_steps': 8}, mon_C01_sched)
+    # claimers racing with a log rewrite (compact) on a log with squeezable history
+    sched_check(ctx, n // 2, {'nwriters': 3, 'nreaders': 0, 'claimers': True, 'pre_steps': 30, 'fixed': ['compact'],
+                              'pre_profile': {'weights': {'set': 60, 'new': 30, 'claim': 0, 'compact': 0, 'malformed': 0, 'prune': 0},
+                                              'states': ['todo', 'todo', 'blocked', 'todo']}}, mon_C01_claimers_only)
 
 
 def init_race(ctx):
@@ -310,16 +450,21 @@ def check_C03(ctx):
     n = 90 if ctx.quick() else 1200
     sched_check(ctx, n, {'nwriters': 4, 'nreaders': 1, 'kills': 0.12, 'tears': 0.7}, mon_sched_common)
     sched_check(ctx, n // 3, {'nwriters': 3, 'nreaders': 0, 'kills': 0.08, 'tears': 0.6, 'pre_tear': True}, mon_sched_common)
+    sched_check(ctx, n // 3, {'nwriters': 3, 'nreaders': 1, 'kills': 0.05, 'tears': 0.3, 'strip_newline': True, 'pre_steps': 8}, mon_sched_common)
+    # a kill during a rewrite (compact / plan / repair) must not block later rewrites
+    sched_check(ctx, n // 3, {'nwriters': 1, 'nreaders': 0, 'kills': 0.3, 'tears': 0.3, 'fixed': ['compact', 'plan', 'compact'], 'pre_steps': 8}, mon_rewrite_health)
 
 
 def check_C04(ctx):
     n = 90 if ctx.quick() else 1200
     sched_check(ctx, n, {'nwriters': 4, 'nreaders': 0, 'kills': 0.22, 'tears': 0.0}, mon_C04_sched)
+    write_syscall_probe(ctx, 'C04')
 
 
 def check_C13(ctx):
     n = 90 if ctx.quick() else 1200
     sched_check(ctx, n, {'nwriters': 3, 'nreaders': 3}, mon_C13_sched)
+    sched_check(ctx, n // 2, {'nwriters': 1, 'nreaders': 3, 'fixed': ['compact', 'plan'], 'pre_steps': 10}, mon_C13_sched)
     if not ctx.quick():
         orders = interleavings(5, 3)
         sched_check(ctx, 4, {'nwriters': 1, 'nreaders': 1}, mon_C13_sched, orders=orders * 4)
@@ -454,7 +599,8 @@ def check_C15(ctx):
     n, steps = sizes(ctx, (48, 30), (500, 40))
     prof = {'weights': {'new': 30, 'seq': 34, 'set': 14, 'plan': 8, 'claim': 6, 'prune': 4, 'seqrm': 3, 'compact': 1},
             'states': ['todo', 'todo', 'done', 'canceled']}
-    driver.history_check(ctx, tags, n, steps, profile=prof, classify=classify_C15)
+    driver.history_check(ctx, tags | {'Exit', 'Events'}, n, steps, profile=prof, classify=classify_C15)
+    cycle_difftest(ctx)
     # the known finding F1 is re-demonstrated on the real binary on every run
     st = Store()
     try:
@@ -708,6 +854,35 @@ def check_C07(ctx):
     prof = {'weights': {'seq': 40, 'seqrm': 10, 'plan': 8, 'prune': 8, 'new': 25, 'set': 12}}
     driver.history_check(ctx, tags, n, steps, profile=prof)
     driver.log_check(ctx, {'Deps', 'RDeps', 'ReplayErr', 'LiveSet'}, *sizes(ctx, (120, 25), (1500, 30)))
+    cycle_difftest(ctx)
+    # every pair of concurrent opposite edge insertions (and a prune racing with them)
+    sched_check(ctx, 40 if ctx.quick() else 400, {'nwriters': 0, 'nreaders': 0, 'fixed': ['seq_ab', 'seq_ba'], 'pre_steps': 10,
+                                                   'pre_profile': {'weights': {'new': 70, 'set': 20, 'seq': 0, 'plan': 0, 'compact': 0, 'malformed': 0}}}, mon_C07_sched)
+    sched_check(ctx, 20 if ctx.quick() else 200, {'nwriters': 1, 'nreaders': 0, 'fixed': ['seq_ab', 'seq_ba', 'prune'], 'pre_steps': 14}, mon_C07_sched)
+
+
+def mon_C07_sched(info):
+    out = mon_sched_common(info)
+    fs = info.get('final_snapshot')
+    if fs:
+        for f in monitors.mon_C07({'after': fs, 'req': {'k': 'none'}, 'before': fs}):
+            out.append(f)
+    return out
+
+
+def mon_C09_sched(info):
+    """prune --yes racing with a re-open: whatever was pruned had to be done/canceled when the prune's
+    section ran; with one-section commands a re-opened task is either pruned BEFORE the re-open (which
+    then fails) or not pruned at all."""
+    out = mon_sched_common(info)
+    reopened_ok = [o['req']['id'] for o in info['outs'] if o['kind'] == 'w' and o['rc'] == 0 and (o['req'] or {}).get('k') == 'set'
+                   and (o['req'].get('fields') or {}).get('state') == 'todo']
+    fs = info.get('final_snapshot')
+    if fs:
+        for i in reopened_ok:
+            if i in fs.get('tombstones', []) or i not in monitors.tasks_by_id(fs):
+                out.append(('reopened_task_pruned', i))
+    return out
 
 
 def mon_gone(log, snap, comp):
@@ -735,6 +910,9 @@ def check_C09(ctx):
     driver.log_check(ctx, {'LiveSet', 'Tombs', 'Deps', 'RDeps', 'ReplayErr', 'PruneTargets'}, *sizes(ctx, (150, 30), (2000, 35)),
                      monitor=mon_gone)
     known_post_compact_reuse(ctx)
+    sched_check(ctx, 40 if ctx.quick() else 400, {'nwriters': 0, 'nreaders': 0, 'fixed': ['prune', 'reopen', 'reopen'], 'pre_steps': 16,
+                                                   'pre_profile': {'weights': {'new': 45, 'set': 45, 'prune': 0, 'compact': 0, 'malformed': 0, 'plan': 0, 'seq': 5},
+                                                                   'states': ['done', 'canceled', 'done', 'todo']}}, mon_C09_sched)
 
 
 def known_post_compact_reuse(ctx):
@@ -824,6 +1002,36 @@ def check_C10(ctx):
     n, steps = sizes(ctx, (48, 30), (600, 40))
     prof = {'weights': {'malformed': 10, 'set': 40, 'seq': 20, 'new': 25, 'plan': 8, 'claim': 12}, 'agent_p': 0.5}
     driver.history_check(ctx, tags, n, steps, profile=prof)
+    failing_multi_field(ctx)
+
+
+def failing_multi_field(ctx):
+    """Multi-field requests whose LAST-processed field is what fails (bad state, over-long body, bad result
+    path, unknown epic): none of the earlier fields may be applied."""
+    st = Store()
+    bad = []
+    try:
+        rc, out, _ = st.run(['--json', 'new', 'task'], stdin=b'{"title":"orig","body":"orig body"}')
+        tid = json.loads(out)['id']
+        big = 'y' * (10 * 1024 * 1024 + 100)
+        reqs = [{'title': 'changed', 'body': big}, {'title': 'changed', 'state': 'error', 'claim': ''}, {'title': 'changed', 'state': 'nonsense'},
+                {'body': 'changed', 'epic': 'ZZZZZZ'}, {'title': 'changed', 'result_path': 'nope.txt', 'result_summary': 's'},
+                {'claim': 'bob', 'body': big}, {'state': 'done', 'body': big}]
+        for f in reqs:
+            before = st.read_log()
+            rc, out, err = st.run(['set', tid], stdin=json.dumps(f).encode(), timeout=120)
+            if rc != 0 and st.read_log() != before:
+                bad.append(('set', sorted(f), err.decode()[:100]))
+        for f in [{'title': 'n', 'state': 'doing', 'claim': 'a', 'body': big}, {'title': 'n', 'claim': 'a', 'epic': 'ZZZZZZ'}, {'title': 'n', 'state': 'error'}]:
+            before = st.read_log()
+            rc, out, err = st.run(['new', 'task'], stdin=json.dumps(f).encode(), timeout=120)
+            if rc != 0 and st.read_log() != before:
+                bad.append(('new', sorted(f), err.decode()[:100]))
+        ctx.cov['failing_multi_field_requests'] = len(reqs) + 3
+        for b in bad[:2]:
+            ctx.violations.append(('monitor', 'a failed %s with fields %s still wrote to the log (%s)' % b, {'kind': 'cli', 'case': b}))
+    finally:
+        st.close()
 
 
 def check_C11(ctx):
@@ -1047,6 +1255,37 @@ def check_C12(ctx):
     reads_pure(ctx)
     epics_order_deterministic(ctx)
     oversized_event(ctx)
+    unterminated_valid_tail(ctx)
+
+
+def unterminated_valid_tail(ctx):
+    """A log whose last line is a complete event lacking only its newline (editor, merge tool, write cut
+    before the newline): reads show that event, and the next mutation must keep it (history only grows)."""
+    rpc = Rpc()
+    try:
+        for k in range(3 if ctx.quick() else 20):
+            h = history.History(rpc, random.Random(ctx.seed * 53 + k))
+            for _ in range(8):
+                h.do(h.gen_request())
+            data = h.store.read_log()
+            if not data.endswith(b'\n') or data.count(b'\n') < 2:
+                h.close()
+                continue
+            with open(h.store.log, 'wb') as f:
+                f.write(data[:-1])
+            before = rpc.call(op='decode', dir=h.store.ergodir).get('ok')
+            rc, out, err = h.store.run(['new', 'task'], stdin=b'{"title":"after unterminated tail"}')
+            after = rpc.call(op='decode', dir=h.store.ergodir).get('ok')
+            if before is None or after is None or after[:len(before)] != before or (rc == 0 and len(after) != len(before) + 1):
+                ctx.violations.append(('monitor', 'a mutation after a complete-but-unterminated last line dropped or altered recorded history',
+                                       {'kind': 'cli', 'events_before': len(before or []), 'events_after': len(after or []), 'rc': rc,
+                                        'how': 'strip the final newline of plans.jsonl; ergo new task'}))
+                h.close()
+                break
+            h.close()
+        ctx.cov['unterminated_valid_tail_runs'] = k + 1
+    finally:
+        rpc.close()
 
 
 def oversized_event(ctx):
@@ -1183,6 +1422,27 @@ def long_text_roundtrip(ctx):
                 rc, out, _ = st.run(['--json', 'show', i])
                 if json.loads(out)['body'] != body2:
                     bad.append(('roundtrip_after_set_compact', mode, size))
+        # multi-byte characters placed across every power-of-two buffer boundary (4 KiB ... 128 KiB), all input modes
+        for ch in ('€', 'é', '\U0001F600'):
+            for off in range(len(ch.encode())):
+                body = 'a' * off + ch * (140000 // len(ch.encode()))
+                for mode in ('stdin', 'json'):
+                    r = history.Req(k='new', epic=False, mode=mode, fields={'title': 'boundary', 'body': body}, agent=None)
+                    args, stdin = history.req_cli(r)
+                    rc, out, err = st.run(args, stdin=stdin)
+                    n += 1
+                    if rc != 0:
+                        bad.append(('create_failed', mode, 'boundary'))
+                        continue
+                    i = json.loads(out)['id']
+                    got = json.loads(st.run(['--json', 'show', i])[1])['body']
+                    if got != body:
+                        k = next((j for j in range(min(len(got), len(body))) if got[j] != body[j]), -1)
+                        bad.append(('roundtrip_boundary', mode, repr(ch), 'first difference at char %d' % k))
+                    rc, _, _ = st.run(['set', i, '--body-stdin'], stdin=('b' + body).encode())
+                    got = json.loads(st.run(['--json', 'show', i])[1])['body']
+                    if rc == 0 and got != 'b' + body:
+                        bad.append(('roundtrip_boundary_set', mode, repr(ch)))
         ctx.cov['long_text_cases'] = n
         for b in bad:
             ctx.violations.append(('monitor', 'text did not come back as it went in: %s' % (b,), {'kind': 'text', 'case': b}))
